@@ -46,6 +46,17 @@ def gen_info(rng):
     return ("extout", std(), ext(), rng.getrandbits(64), rng.getrandbits(32))
 
 
+def big_info(rng):
+    """internal headers of 900..1020 bits: anycast on both addresses, long amounts"""
+    def std():
+        a = ("addr", "std", rng.choice([0, -1, 5]), rng.randbytes(32).hex())
+        if rng.random() < 0.8:
+            a = a + (rng.randrange(1, 31), 0)
+        return a
+    big = lambda: rng.getrandbits(8 * rng.randrange(9, 16)) | (1 << (8 * rng.randrange(8, 15)))
+    return ("int", rng.choice(["000", "100", "110"]), std(), std(), big(), [], big(), big(), rng.getrandbits(64), rng.getrandbits(32))
+
+
 def info_tok(i):
     if i[0] == "int":
         ec = ",".join(f"{bs.hz(k)}={bs.hz(v)}" for k, v in i[5]) or "-"
@@ -154,6 +165,26 @@ def run(ctx):
         nr = rng.randrange(0, 5)
         dag.append((-1, cells.rand_bits(rng, min(nb, 1023)), [rng.randrange(4) for _ in range(nr)]))
         cases.append((dag, info, si, len(dag) - 1))
+    # headers sized so that header + inline state-init lands exactly on the cell capacity and one bit either side
+    # (the inline-or-reference decision for the state-init), with small and boundary bodies
+    nb_hits = 0
+    for _ in range(ctx.n(4000, 40000)):
+        if nb_hits >= ctx.n(60, 600):
+            break
+        dag = bs.pool_dag(rng, 4)
+        si = gen_init(rng, len(dag))
+        if si is None:
+            continue
+        ib = 5 + (5 if si[0] is not None else 0) + (2 if si[1] else 0)
+        info = big_info(rng)
+        tot = info_bits(info) + ib
+        if tot not in (1019, 1020, 1021, 1022, 1023):
+            continue
+        nb_hits += 1
+        nb = rng.choice([0, 0, 1, 2, 3, 500])
+        dag.append((-1, cells.rand_bits(rng, nb), [rng.randrange(4) for _ in range(rng.choice([0, 0, 1]))]))
+        cases.append((dag, info, si, len(dag) - 1))
+    ctx.extra["state_init_boundary_cases"] = nb_hits
     impl, model = ctx.correspond("MessageAny.serialize", cases, py_ser,
                                  lambda c: f"msg_ser {info_tok(c[1])} {init_tok(c[2])} {c[3]} {cells.dag_line(c[0])}",
                                  lambda c: True)
